@@ -407,8 +407,13 @@ def complex_sustain_from_parsed_datas(datas: Sequence[NoteEvent.ParsedData]) -> 
     """
     # Undefined behavior if there are other open notes. We could validate this, but this function
     # runs in a very tight loop.
-    if datas[0].note_track_index == NoteTrackIndex.OPEN:
-        return datas[0].sustain
+    #
+    # The open note's own line is not necessarily the first one of its tick: Moonscraper writes a
+    # tick's lines in ascending index order, so a forced (5) or tap (6) flag line precedes the open
+    # (7) line. Look for the open line wherever it is, so that its sustain is not lost.
+    for d in datas:
+        if d.note_track_index == NoteTrackIndex.OPEN:
+            return d.sustain
 
     sustain_list = _SustainList([None] * 5)
     for d in filter(lambda d: d.note_track_index.is_5_note(), datas):
